@@ -479,6 +479,11 @@ def sticky_step(
         if not present:
             cover("absent")
             check(-1 <= got <= 1, "value outside [-1,1]")
+            if kind == "qualifying":
+                # docstring: a browser request that FAILS is tracked whatever the browser last showed - also when the
+                # browser is not reported in the state (e.g. it was uninstalled and the request is unreachable)
+                exp = -1 if status != "success" else 0
+                check(got == exp, lambda: f"browser not in the state, request {status}: reward {got}, documented {exp}")
             return
         if kind == "qualifying":
             cover("event")
